@@ -3,12 +3,16 @@
 instance = (unit pair, ordered rep pair).  Both argument orders of every operator are evaluated on
 every value pair, so the unordered unit-pair grid x ALL ordered rep pairs covers every ordered
 (unit, rep) combination (a ratio r and its reciprocal 1/r are the two argument orders).
-The model (this file, Fractions) supplies the integer factors K_i = unit_i / gcd-unit, the common rep
-and the promoted result rep; harness/c08_sweep.hh evaluates the exact values in __int128 / __float128.
+The model (this file, exponent vectors / Fractions) supplies the factors K_i = unit_i / common unit,
+the common rep and the promoted result rep; harness/c08_sweep.hh evaluates the exact values in
+__int128 / __float128.  For an irrational unit ratio (degrees / radians) the K_i are real numbers
+(given to the harness as a triple-double, exact to > 113 bits) and only floating reps are in the
+statement's domain.
 """
 import json
 import math
 import os
+from decimal import Decimal, getcontext
 from fractions import Fraction as Fr
 
 from . import core, model
@@ -16,22 +20,36 @@ from .core import BITS, tmax, tmin
 from .model import LIB_BY_STEM as U
 from .sweep34 import cflags, lit128
 
-SIGNED = ["int16_t", "int32_t", "int64_t"]
-UNSIGNED = ["uint16_t", "uint32_t", "uint64_t"]
-FLOATS = ["float", "double"]
+SIGNED = ["int8_t", "int16_t", "int32_t", "int64_t"]
+UNSIGNED = ["uint8_t", "uint16_t", "uint32_t", "uint64_t"]
+FLOATS = ["float", "double", "long double"]
+# reduced ordered rep-pair menu for the "shape" unit pairs of the quick tier (every width mix, both directions)
+MIX = [("int32_t", "int32_t"), ("int8_t", "int16_t"), ("int16_t", "int8_t"), ("int16_t", "int64_t"), ("int64_t", "int32_t"),
+       ("int8_t", "int32_t"), ("uint8_t", "uint16_t"), ("uint16_t", "uint16_t"), ("uint32_t", "uint64_t"), ("uint64_t", "uint8_t"),
+       ("float", "double"), ("double", "double"), ("long double", "float"), ("double", "long double")]
 UBSAN = ["-fsanitize=undefined", "-fsanitize-recover=all"]
+getcontext().prec = 60
 
 
 class Un:
-    """A unit for this check: C++ spelling + exact magnitude relative to the dimension's base unit."""
+    """A unit for this check: C++ spelling + exact magnitude (exponent vector) relative to the dimension's base unit."""
 
-    def __init__(self, name, cpp, frac):
-        self.name, self.cpp, self.frac = name, cpp, Fr(frac)
+    def __init__(self, name, cpp, mag):
+        self.name, self.cpp = name, cpp
+        self.mag = model.mag_of_fraction(mag) if isinstance(mag, (int, Fr)) else dict(mag)
+        self.frac = model.mag_fraction(self.mag) if model.mag_is_rational(self.mag) else None
+
+    def rec(self):
+        return [self.name, self.cpp, [[str(b), e.numerator, e.denominator] for b, e in self.mag.items()]]
+
+    @staticmethod
+    def from_rec(r):
+        return Un(r[0], r[1], {("pi" if b == "pi" else int(b)): Fr(n, d) for b, n, d in r[2]})
 
 
 def lib(stem, name=None):
     u = U[stem]
-    return Un(name or stem, u.cpp, model.mag_fraction(u.mag))
+    return Un(name or stem, u.cpp, u.mag)
 
 
 def scaled(base, n, d=1):
@@ -41,48 +59,76 @@ def scaled(base, n, d=1):
         e += " * au::mag<%du>()" % n
     if d != 1:
         e += " / au::mag<%du>()" % d
-    return Un("%s*%d/%d" % (base, n, d), "decltype(%s)" % e, model.mag_fraction(b.mag) * Fr(n, d))
+    return Un("%s*%d/%d" % (base, n, d), "decltype(%s)" % e, model.vmul(b.mag, model.mag_ratio(n, d)))
 
 
 def prefixed(pfx, base):
     p = [x for x in model.ALL_PREFIXES if x[0] == pfx][0]
     b = U[base]
-    return Un("%s<%s>" % (pfx, base), "au::%s<%s>" % (pfx, b.cpp),
-              model.mag_fraction(model.vmul(b.mag, model.prefix_mag(p))))
+    return Un("%s<%s>" % (pfx, base), "au::%s<%s>" % (pfx, b.cpp), model.vmul(b.mag, model.prefix_mag(p)))
+
+
+def power(u, e):
+    return Un("%s^%d" % (u.name, e), "au::UnitPowerT<%s, %d>" % (u.cpp, e), model.vpow(u.mag, e))
+
+
+def quotient(a, b):
+    return Un("%s/%s" % (a.name, b.name), "au::UnitQuotientT<%s, %s>" % (a.cpp, b.cpp), model.vdiv(a.mag, b.mag))
 
 
 RANKINES = Un("rankines", "au::Rankines", Fr(5, 9))
 
 
 def unit_pairs(tier):
-    """(ratio label, U1, U2); every pair is same-dimension. Ratio = U1/U2."""
-    q = [("12", lib("feet"), lib("inches")),
-         ("3", lib("yards"), lib("feet")),
-         ("1000", prefixed("Kilo", "meters"), lib("meters")),
-         ("5/9", RANKINES, lib("kelvins")),
-         ("1250/381", lib("meters"), lib("feet")),
-         ("7/3", scaled("meters", 7, 3), lib("meters")),
-         ("3600", lib("hours"), lib("seconds")),
-         ("1000000", prefixed("Mega", "meters"), lib("meters"))]
+    """(ratio label, U1, U2, menu); every pair is same-dimension. Ratio = U1/U2.  The grid is generated from
+    {integer, reciprocal-of-integer (= other argument order), general rational p/q, 1 (distinct equivalent units), irrational}
+    x {plain, prefixed, power, quotient, dimensionless, origin-carrying} unit shapes.  menu 'all' = every ordered rep pair of
+    equal signedness; 'mix' = the reduced MIX menu in the quick tier (all in thorough)."""
+    m, ft, inch = lib("meters"), lib("feet"), lib("inches")
+    q = [("12", ft, inch, "all"),
+         ("3", lib("yards"), ft, "mix"),
+         ("1000", prefixed("Kilo", "meters"), m, "all"),
+         ("5/9", RANKINES, lib("kelvins"), "all"),
+         ("1250/381", m, ft, "all"),
+         ("7/3", scaled("meters", 7, 3), m, "mix"),
+         ("3600", lib("hours"), lib("seconds"), "mix"),
+         ("1000000", prefixed("Mega", "meters"), m, "mix"),
+         # unit shapes other than plain / prefixed / scaled
+         ("144 (squared)", power(ft, 2), power(inch, 2), "mix"),
+         ("18/5 (quotient)", quotient(m, lib("seconds")), quotient(prefixed("Kilo", "meters"), lib("hours")), "mix"),
+         ("1/100 (dimensionless)", lib("percent"), lib("unos"), "mix"),
+         ("1 (distinct equivalent units)", prefixed("Kilo", "meters"), scaled("meters", 1000), "mix"),
+         ("9/5 (origin-carrying)", lib("celsius"), lib("fahrenheit"), "mix"),
+         ("999999/1000000 (large coprime factors)", scaled("meters", 999, 1000), scaled("meters", 1000, 1001), "mix"),
+         ("pi/180 (irrational)", lib("degrees"), lib("radians"), "mix")]
     if tier == "thorough":
-        q += [("5280", lib("miles"), lib("feet")),
-              ("86400", lib("days"), lib("seconds")),
-              ("127/5000", lib("inches"), lib("meters")),
-              ("201168/125", lib("miles"), lib("meters")),
-              ("1852", lib("nautical_miles"), lib("meters")),
-              ("8", lib("bytes"), lib("bits")),
-              ("9/5", lib("celsius"), lib("fahrenheit")),     # quantity units that carry origins
-              ("1000000000", prefixed("Giga", "seconds"), lib("seconds")),
-              ("5e15", scaled("meters", 5 * 10 ** 15), lib("meters")),   # policy: uint64 yes, int64 no
-              ("1024", prefixed("Kibi", "bits"), lib("bits")),
-              ("14/15", scaled("meters", 2, 3), scaled("meters", 5, 7)),
-              ("36", lib("yards"), lib("inches"))]
+        q += [("5280", lib("miles"), ft, "all"),
+              ("86400", lib("days"), lib("seconds"), "all"),
+              ("127/5000", inch, m, "all"),
+              ("201168/125", lib("miles"), m, "all"),
+              ("1852", lib("nautical_miles"), m, "all"),
+              ("8", lib("bytes"), lib("bits"), "all"),
+              ("1000000000", prefixed("Giga", "seconds"), lib("seconds"), "all"),
+              ("5e15", scaled("meters", 5 * 10 ** 15), m, "all"),   # policy: uint64 yes, int64 no
+              ("1024", prefixed("Kibi", "bits"), lib("bits"), "all"),
+              ("14/15", scaled("meters", 2, 3), scaled("meters", 5, 7), "all"),
+              ("36", lib("yards"), inch, "all"),
+              ("1562500/145161 (squared)", power(m, 2), power(ft, 2), "all"),
+              ("1397/3125 (quotient)", quotient(lib("miles"), lib("hours")), quotient(m, lib("seconds")), "all"),
+              ("1/60 (inverse)", power(lib("minutes"), -1), lib("hertz"), "all"),
+              ("1/27 (cubed)", power(ft, 3), power(lib("yards"), 3), "all"),
+              ("2 pi (irrational)", lib("revolutions"), lib("radians"), "all")]
     return q
 
 
-def fgcd(a, b):
-    return Fr(math.gcd(a.numerator * b.denominator, b.numerator * a.denominator),
-              a.denominator * b.denominator)
+def triple_double(dec):
+    """A real number as three doubles whose exact sum agrees with it to ~150 bits."""
+    out = []
+    for _ in range(3):
+        f = float(dec)
+        out.append(f)
+        dec = dec - Decimal(f)
+    return out
 
 
 class Inst:
@@ -91,15 +137,30 @@ class Inst:
         self.flt = r1 in FLOATS
         self.c = core.common_rep(r1, r2)
         self.p = self.c if self.flt else core.promoted(self.c)
-        self.g = fgcd(u1.frac, u2.frac)
-        k1, k2 = u1.frac / self.g, u2.frac / self.g
-        assert k1.denominator == 1 and k2.denominator == 1 and math.gcd(int(k1), int(k2)) == 1
-        self.k1, self.k2 = int(k1), int(k2)
-        self.ops = {}       # cfg.name -> {"cmp":bool,"add":bool,"mod":bool,"ss":bool}
+        self.gmag = model.mag_gcd([u1.mag, u2.mag])
+        k1, k2 = model.vdiv(u1.mag, self.gmag), model.vdiv(u2.mag, self.gmag)
+        self.rational = model.mag_is_rational(k1) and model.mag_is_rational(k2)
+        if self.rational:
+            k1, k2 = model.mag_fraction(k1), model.mag_fraction(k2)
+            assert k1.denominator == 1 and k2.denominator == 1 and math.gcd(int(k1), int(k2)) == 1
+            self.k1, self.k2 = int(k1), int(k2)
+            self.g = u1.frac / self.k1 if u1.frac is not None else None
+            self.kf = [[float(self.k1), 0.0, 0.0], [float(self.k2), 0.0, 0.0]]
+            if float(self.k1) != self.k1 or float(self.k2) != self.k2:
+                self.kf = [triple_double(Decimal(self.k1)), triple_double(Decimal(self.k2))]
+        else:
+            self.k1 = self.k2 = 0
+            self.g = None
+            self.kf = [triple_double(model.mag_decimal(k1)), triple_double(model.mag_decimal(k2))]
+        self.ops = {}       # cfg.name -> {"cmp":bool,"add":bool,"mod":bool,"ss":bool,"cx":bool}
 
     def predicted(self):
+        """The documented implicit-conversion policy in the common rep: floating reps always; integral reps need an
+        integer factor that is 1 or satisfies 2147 * K <= max(common rep)."""
         if self.flt:
             return True
+        if not self.rational:
+            return False
         return all(k == 1 or 2147 * k <= tmax(self.c) for k in (self.k1, self.k2))
 
     def desc(self):
@@ -108,12 +169,28 @@ class Inst:
 
 def instances(tier):
     out = []
-    for (label, u1, u2) in unit_pairs(tier):
-        for fam in (SIGNED, UNSIGNED, FLOATS):
-            for r1 in fam:
-                for r2 in fam:
-                    out.append(Inst(len(out), label, u1, u2, r1, r2))
+    for (label, u1, u2, menu) in unit_pairs(tier):
+        if menu == "mix" and tier == "quick":
+            pairs = MIX
+        else:
+            pairs = [(a, b) for fam in (SIGNED, UNSIGNED, FLOATS) for a in fam for b in fam]
+        for r1, r2 in pairs:
+            it = Inst(len(out), label, u1, u2, r1, r2)
+            it.in_mix = (r1, r2) in MIX
+            if not it.rational and not it.flt:
+                continue        # an irrational ratio with integral reps: the library refuses it (policy), nothing to sweep
+            out.append(it)
     return out
+
+
+def _merge(iv):
+    merged = []
+    for a, z in sorted(iv):
+        if merged and a <= merged[-1][1] + 1:
+            merged[-1] = (merged[-1][0], max(merged[-1][1], z))
+        else:
+            merged.append((a, z))
+    return merged
 
 
 def window_alphabet(r_i, k_i, c, p, radius):
@@ -121,19 +198,24 @@ def window_alphabet(r_i, k_i, c, p, radius):
     lo, hi = tmin(r_i), tmax(r_i)
     b = {0, 1, lo, hi, tmax(c) // k_i, tmax(c) // k_i + 1, tmax(r_i) // k_i, tmax(r_i) // k_i + 1,
          tmax(p) // (2 * k_i), 2 ** 15, 2 ** 16, 2 ** 31, 2 ** 32, 2 ** 63, 127, 255}
-    for w in (16, 32):       # the narrower reps' own overflow thresholds (operand-wise conversion)
+    for w in (8, 16, 32):       # the narrower reps' own overflow thresholds (operand-wise conversion)
         b.add((2 ** (w - 1) - 1) // k_i)
         b.add((2 ** w - 1) // k_i)
     if lo < 0:
         b |= {-x for x in b} | {-((-tmin(c)) // k_i), -((-tmin(c)) // k_i) - 1}
-    iv = sorted((max(x - radius, lo), min(x + radius, hi)) for x in b if x + radius >= lo and x - radius <= hi)
-    merged = []
-    for a, z in iv:
-        if merged and a <= merged[-1][1] + 1:
-            merged[-1] = (merged[-1][0], max(merged[-1][1], z))
-        else:
-            merged.append((a, z))
-    return merged
+    return _merge((max(x - radius, lo), min(x + radius, hi)) for x in b if x + radius >= lo and x - radius <= hi)
+
+
+def lattice_alphabet(r_i, k_i, step):
+    """Enumerated mid-range lattice for one operand: {2^j, 3*2^(j-1), 5*2^(j-2), 2^j / K, 3*2^(j-1) / K} +- 1 and negatives,
+    j = 2, 2+step, ... over the whole range of the rep (values between the breakpoint windows)."""
+    lo, hi = tmin(r_i), tmax(r_i)
+    lat = set()
+    for j in range(2, 64, step):
+        lat |= {2 ** j, 3 * 2 ** (j - 1), 5 * 2 ** (j - 2), (2 ** j) // k_i, (3 * 2 ** (j - 1)) // k_i}
+    if lo < 0:
+        lat |= {-x for x in lat}
+    return _merge((max(x - 1, lo), min(x + 1, hi)) for x in lat if x + 1 >= lo and x - 1 <= hi)
 
 
 def probes_for(insts, cfg):
@@ -152,6 +234,20 @@ def probes_for(insts, cfg):
             groups.append(("ss", "(void)(a <=> b); (void)(b <=> a);"))
         for g, body in groups:
             ps.append(core.Probe((it.id, g), mk + body, exp, {"inst": it.id, "group": g}))
+        if it.predicted():
+            # the operators in constant expressions (the everyday static_assert use); integral reps: with the exact values
+            ck = mk.replace("auto a", "constexpr auto a").replace("auto b", "constexpr auto b")
+            body = ("constexpr bool lt = a < b, eq = a == b, ge = b >= a, ne = b != a; constexpr auto s = a + b; constexpr auto d = b - a; "
+                    "(void)lt; (void)eq; (void)ge; (void)ne; (void)s; (void)d; ")
+            if not it.flt:
+                body += "constexpr auto m = a % b; (void)m; "
+                body += ("static_assert(lt == (%dull < %dull) && eq == (%dull == %dull), \"\"); " % (it.k1, it.k2, it.k1, it.k2))
+                if it.k1 + it.k2 <= tmax(it.p):
+                    body += ("static_assert(s.in(decltype(s)::unit) == %dull + %dull, \"\"); static_assert(m.in(decltype(m)::unit) == %dull %% %dull, \"\"); "
+                             % (it.k1, it.k2, it.k1, it.k2))
+            if cxx20:
+                body += "constexpr auto o = a <=> b; (void)o; "
+            ps.append(core.Probe((it.id, "cx"), ck + body, "accept", {"inst": it.id, "group": "cx"}))
     return ps
 
 
@@ -161,22 +257,27 @@ def emit_tu(path, insts, cfg, radius, fexp):
         ops = it.ops[cfg.name]
         out.append("struct I%d { typedef %s U1; typedef %s U2; typedef %s R1; typedef %s R2; typedef %s C; typedef %s P; "
                    "static constexpr unsigned long long K1 = %dull, K2 = %dull; "
-                   "static constexpr bool ADD = %s, MOD = %s, SS = %s; };"
-                   % (it.id, it.u1.cpp, it.u2.cpp, it.r1, it.r2, it.c, it.p, it.k1, it.k2,
-                      str(ops["add"]).lower(), str(ops.get("mod", False)).lower(),
-                      str(ops.get("ss", False)).lower()))
+                   "static constexpr bool ADD = %s, MOD = %s, SS = %s, KINT = %s; "
+                   "static c08::f128 k1f() { return (c08::f128)%r + (c08::f128)%r + (c08::f128)%r; } "
+                   "static c08::f128 k2f() { return (c08::f128)%r + (c08::f128)%r + (c08::f128)%r; } };"
+                   % ((it.id, it.u1.cpp, it.u2.cpp, it.r1, it.r2, it.c, it.p,
+                       it.k1 if it.k1 < 2 ** 64 else 0, it.k2 if it.k2 < 2 ** 64 else 0,
+                       str(bool(ops.get("add"))).lower(), str(bool(ops.get("mod", False))).lower(),
+                       str(bool(ops.get("ss", False))).lower(), str(it.rational).lower()) + tuple(it.kf[0]) + tuple(it.kf[1])))
         if not it.flt:
-            for nm, iv in (("A", it.iv1), ("B", it.iv2)):
+            for nm, iv in (("A", it.iv1), ("B", it.iv2), ("LA", getattr(it, "lat1", [])), ("LB", getattr(it, "lat2", []))):
+                iv = iv or [(1, 0)]        # an empty alphabet is emitted as one empty interval
                 out.append("static const vf::Interval %s%d[] = {%s};"
                            % (nm, it.id, ", ".join("{%s, %s}" % (lit128(a), lit128(b)) for a, b in iv)))
     out.append("}")
     out.append("int main() {")
     for it in insts:
         if it.flt:
-            out.append("  c08::run_flt<I%d>(%d, %d, %d, %d);" % ((it.id, it.id) + fexp))
+            out.append("  c08::run_flt<I%d>(%d, %d, %d, %d);" % ((it.id, it.id) + tuple(fexp)))
         else:
-            out.append("  c08::run_int<I%d>(%d, A%d, %d, B%d, %d, %s);"
-                       % (it.id, it.id, it.id, len(it.iv1), it.id, len(it.iv2), str(it.square8).lower()))
+            out.append("  c08::run_int<I%d>(%d, A%d, %d, B%d, %d, LA%d, %d, LB%d, %d, %s, %d);"
+                       % (it.id, it.id, it.id, len(it.iv1), it.id, len(it.iv2), it.id, len(getattr(it, "lat1", [])),
+                          it.id, len(getattr(it, "lat2", [])), str(it.square8).lower(), getattr(it, "dense", 0)))
     out.append("  return 0; }")
     with open(path, "w") as f:
         f.write("\n".join(out) + "\n")
@@ -185,9 +286,15 @@ def emit_tu(path, insts, cfg, radius, fexp):
 def weight(it):
     if it.flt:
         return 3_000_000
-    n1 = sum(b - a + 1 for a, b in it.iv1)
-    n2 = sum(b - a + 1 for a, b in it.iv2)
-    return n1 * n2 + 65536
+    n = lambda iv: sum(b - a + 1 for a, b in iv)
+    n1, n2 = n(it.iv1), n(it.iv2)
+    w = n1 * n2 + 65536 + n(getattr(it, "lat1", [])) * n(getattr(it, "lat2", []))
+    d = getattr(it, "dense", 0)
+    if d:
+        for r, m in ((it.r1, n2), (it.r2, n1)):
+            if BITS[r] == 16:
+                w += 65536 * (7 if d == 1 else m)
+    return w
 
 
 def build_and_run(wd, cfg, tag, insts, flags, radius, fexp, nsplit, timeout=3000):
@@ -199,7 +306,7 @@ def build_and_run(wd, cfg, tag, insts, flags, radius, fexp, nsplit, timeout=3000
     for it in sorted(insts, key=lambda i: (-weight(i), i.id)):
         k = load.index(min(load))
         groups[k].append(it)
-        load[k] += weight(it)
+        load[k] += weight(it) + 2_000_000       # + a per-instance compile-cost term
     fl = ["-O1"] + list(flags) + cflags(cfg)
     core.pch_dir(cfg, fl)
 
@@ -217,6 +324,10 @@ def build_and_run(wd, cfg, tag, insts, flags, radius, fexp, nsplit, timeout=3000
             return out      # the library trapped on an in-precondition pair: reported as a violation
         if rc != 0:
             raise core.InfraError("C08 sweep binary %s failed rc=%d: %s" % (exe, rc, err[-2000:]))
+        try:
+            os.remove(exe)
+        except OSError:
+            pass
         return out
 
     stats, viols = [], []
@@ -233,6 +344,8 @@ def build_and_run(wd, cfg, tag, insts, flags, radius, fexp, nsplit, timeout=3000
 def py_expect(it, kind, op, order, x1, x2):
     """Recompute the expectation with Fractions from the unit magnitudes (not from K1/K2).
     Returns (in_statement, expected-as-string-or-None)."""
+    if it.u1.frac is None or it.u2.frac is None or it.g is None:
+        return True, None
     try:
         a, b = Fr(x1) * it.u1.frac, Fr(x2) * it.u2.frac      # exact quantities in base units
     except (ValueError, ZeroDivisionError):
@@ -263,7 +376,7 @@ def py_expect(it, kind, op, order, x1, x2):
         r = (a - q * b) / g           # truncated division, like the built-in %
     else:
         return True, None
-    if r.denominator != 1 or not (tmin(it.p) <= r <= tmax(it.p)):
+    if r.denominator != 1:
         return False, None
     return True, str(int(r))
 
@@ -297,7 +410,17 @@ def chains(tier):
     if tier == "quick":
         out.append(("/".join("%s:%s" % (nm[x], u[x]) for x in perms[0]),
                     ", ".join("%s, %s" % (x, u[x]) for x in perms[0])))
-    return out
+    # chains whose three pairwise common units differ (general rational ratios): Rankines 5/9 K, Kelvins, 7/3 K
+    # (pairwise common units K/9, K/3, K/9) and feet / inches / meters (ratios 12, 1250/381, 15625/381... -> 5000/127)
+    R, K, S = "au::Rankines", "au::Kelvins", "decltype(au::Kelvins{} * au::mag<7>() / au::mag<3>())"
+    M = "au::Meters"
+    rat = [("R:int32_t/K:int64_t/7K3:int16_t", "%s, int32_t, %s, int64_t, %s, int16_t" % (R, K, S)),
+           ("7K3:int8_t/R:int16_t/K:int32_t", "%s, int8_t, %s, int16_t, %s, int32_t" % (S, R, K))]
+    if tier == "thorough":
+        rat += [("K:uint32_t/7K3:uint16_t/R:uint64_t", "%s, uint32_t, %s, uint16_t, %s, uint64_t" % (K, S, R)),
+                ("ft:int32_t/in:int64_t/m:int32_t", "%s, int32_t, %s, int64_t, %s, int32_t" % (F, I, M)),
+                ("m:int64_t/ft:int16_t/in:int32_t", "%s, int64_t, %s, int16_t, %s, int32_t" % (M, F, I))]
+    return out + (rat[:1] if tier == "quick" else rat)
 
 
 def run_transitivity(wd, cfg, tier, nparts=8):
@@ -311,8 +434,7 @@ def run_transitivity(wd, cfg, tier, nparts=8):
     fl = ["-O1"] + cflags(cfg)
     rc, err = core.build_exe(cfg, src, exe, fl)
     if rc != 0:
-        raise core.InfraError("C08 transitivity TU failed to build:\n%s" % err[-3000:])
-
+        return ch, [], [], err
     def job(j):
         rc, out, err = core.sh([exe, str(j[1]), str(nparts), str(j[0])], timeout=3000)
         if rc != 0:
@@ -326,4 +448,4 @@ def run_transitivity(wd, cfg, tier, nparts=8):
                 ts.append(json.loads(line[2:]))
             elif line.startswith("V "):
                 vs.append(json.loads(line[2:]))
-    return ch, ts, vs
+    return ch, ts, vs, ""
